@@ -229,17 +229,18 @@ def run_case(case):
         bad2 = runner.compare_results(results, ref2, cfg["eval"], tol_state, tol_obs, state_getter=getter)
         if not bad2:
             bad, ref = [], ref2
-    if bad and tol > 1e-10 and spec.get("slm") is not None:
+    if bad and spec.get("slm") is not None:
         # Recorded C07 finding seen through emu-sv: with a far-detuned (SLM-masked) atom the Krylov error estimate declares convergence too early.
         # It is that finding - and nothing else - iff the very same run is exact once the tolerance is tightened.
-        cfg12 = dict(cfg, krylov_tolerance=1e-12)
+        tight = min(1e-12, tol * 1e-3)
+        cfg12 = dict(cfg, krylov_tolerance=tight)
         try:
             res12, _ = runner.run_sv(spec, cfg12)
-            ok12 = not runner.compare_results(res12, ref, cfg["eval"], nsteps * 10 * 1e-12 + 1e-10, 4 * (nsteps * 10 * 1e-12 + 1e-10) + 1e-9, state_getter=getter)
+            ok12 = not runner.compare_results(res12, ref, cfg["eval"], nsteps * 10 * tight + 1e-10, 4 * (nsteps * 10 * tight + 1e-10) + 1e-9, state_getter=getter)
         except Exception:
             ok12 = False
         if ok12:
-            return result(False, sig="tight|krylov-accuracy-with-far-detuned-masked-atom", msg=f"{case['label']} cfg={cfg}: " + " ; ".join(bad[:2]) + " (exact at krylov_tolerance=1e-12)", outcome="mismatchA-krylov")
+            return result(False, sig="tight|krylov-accuracy-with-far-detuned-masked-atom", msg=f"{case['label']} cfg={cfg}: " + " ; ".join(bad[:2]) + " (exact at krylov_tolerance={tight:g})", outcome="mismatchA-krylov")
     if bad:
         return result(
             False,
